@@ -191,6 +191,11 @@ def _to_str(s):
     return s
 
 
+def _comment(text: str) -> str:
+    """A trailing comment: line breaks in the text would otherwise end the comment."""
+    return "  # " + " ".join(text.splitlines())
+
+
 def _is_attribute_ref(attr: onnx.AttributeProto) -> bool:
     return attr.HasField("ref_attr_name") and attr.ref_attr_name != ""
 
@@ -417,7 +422,7 @@ class _Exporter:
             pynode = self._translate_node(node, opsets, indent=indent)
             if pynode:
                 if node.name:
-                    pynode += f"  # {node.name}"
+                    pynode += _comment(node.name)
                 code.append(pynode)
 
         final = "\n".join(code)
@@ -559,7 +564,7 @@ class _Exporter:
         rows.extend(self._emit_assign(formal_ins, actual_ins, indent))
 
         if node.name:
-            node_name = "  # " + node.name
+            node_name = _comment(node.name)
         else:
             node_name = ""
         if use_iter_var and not use_loop_cond:
@@ -750,7 +755,7 @@ class _Exporter:
         fun_sig = self._translate_function_signature(funproto)
         add_line(f"def {fun_name}{fun_sig}")
         if funproto.doc_string:
-            add_line(f'    """{funproto.doc_string}"""')
+            add_line(f"    {funproto.doc_string!r}")
         self._name_remappings.append({})
         for node in funproto.node:
             add_line(self._translate_node(node, opsets, indent=1))
@@ -791,7 +796,7 @@ class _Exporter:
         indent = indent + _SINGLE_INDENT
         doc = graph.doc_string
         if doc:
-            add(f'{indent}"""{doc}"""')
+            add(f"{indent}{doc!r}")
         add(body)
         add(f"{indent}return {return_values}")
         script = "\n".join(result)
